@@ -194,6 +194,23 @@ Theorem c29_odd_bucket_refuted :
 Proof. exact odd_bucket_refuted. Qed.
 Print Assumptions c29_odd_bucket_refuted.
 
+(* the check attributes a case to finding 2 only on the routes that put the bucket name into
+   a filer URL (odd_request); on the gRPC-only routes an odd bucket is addressed by its
+   literal name and stays inside /buckets/<literal name> (shown on every such route) *)
+Theorem c29_odd_request_narrower : forall q, odd_request q = true -> odd_bucket (q_bucket q) = true.
+Proof. exact odd_request_odd. Qed.
+Print Assumptions c29_odd_request_narrower.
+
+Example c29_example_odd_grpc :
+  forallb (fun q => negb (odd_request q) && odd_bucket (q_bucket q) &&
+                    negb (Nat.eqb (List.length (calls fx_odd q)) 0) &&
+                    forallb call_contained (calls fx_odd q) && candidates_contained fx_odd q) odd_grpc_reqs = true /\
+  map snd (calls fx_odd (mk_req RComplete "%62" "x/done" "u1" "0001.part" "" [])) =
+    [GList "/buckets/%62/.uploads/u1"; GLookup "/buckets/%62/.uploads" "u1"; GCreate "/buckets/%62/x" "done" false;
+     GDelete "/buckets/%62/.uploads" "u1" true].
+Proof. exact odd_grpc_routes_contained. Qed.
+Print Assumptions c29_example_odd_grpc.
+
 (* Former finding 3, REPAIRED in /repo (fix: POST policy upload must keep the bucket and
    the form key apart): POST /oth with key = er/obj used to write /buckets/other/obj; the
    POST route is now covered by c29_contained_partial without any extra hypothesis, and
